@@ -50,8 +50,12 @@ func (its *WiredDatatype) ReceiveRemoteModelOperations(ops []*model.Operation, o
 		case model.TypeOfOperation_TRANSACTION:
 			txOp := operations.ModelToOperation(modelOp).(*operations.TransactionOperation)
 			opList = append(opList, txOp)
-			transaction = ops[i : i+int(txOp.GetNumOfOps())]
-			i += int(txOp.GetNumOfOps())
+			numOfOps := int(txOp.GetNumOfOps())
+			if numOfOps < 1 || i+numOfOps > len(ops) {
+				return nil, errors.DatatypeTransaction.New(its.L(), "incomplete or malformed transaction")
+			}
+			transaction = ops[i : i+numOfOps]
+			i += numOfOps
 		default:
 			transaction = []*model.Operation{modelOp}
 			i++
